@@ -146,6 +146,10 @@ func (hookC10) quiesce(x *fleetExec) {
 
 // badadd N V W : a refused or weightless addition; the statistics must not move.
 func (hookC10) event(x *fleetExec, e engine.Event) bool {
+	if e.Ev == "badmerge" {
+		c10BadMerge(x, e)
+		return true
+	}
 	if e.Ev != "badadd" {
 		return false
 	}
@@ -171,6 +175,29 @@ func (hookC10) event(x *fleetExec, e engine.Event) bool {
 	x.st.ProbeIf(w == 0, "weightless-value-offered")
 	c10Check(x, e, nd)
 	return true
+}
+
+// badmerge N M : node N is asked to merge node M, whose mapping clearly differs. The
+// refusal is C13's statement; here the statistics of N must still describe its content.
+func c10BadMerge(x *fleetExec, e engine.Event) {
+	nd, src := x.nodes[e.N], x.nodes[e.M]
+	if nd == nil || src == nil || nd == src || nd.dirty || src.dirty || !nd.exact() || !src.exact() || src.model.IsEmpty() {
+		return
+	}
+	if diff, ok := clearlyDifferent(&nd.spec, &src.spec, true); !ok || !diff {
+		return
+	}
+	sig := "badmerge/" + nd.spec.Role + "/" + nd.spec.Store
+	var err error
+	x.lib("MergeWith", sig, func() {
+		err = nd.real.(*ddsketch.DDSketchWithExactSummaryStatistics).MergeWith(src.real.(*ddsketch.DDSketchWithExactSummaryStatistics))
+	})
+	if err == nil {
+		nd.dirty = true // accepted: C13's business; this node no longer matches its model
+		return
+	}
+	x.st.Fault("merge-refused-mapping-mismatch")
+	c10Check(x, e, nd)
 }
 
 func c10Check(x *fleetExec, e engine.Event, nd *knode) {
@@ -413,6 +440,32 @@ func (hookC14) quiesce(x *fleetExec) {
 // ---- C15: cleared == new ----------------------------------------------------------------------------------
 
 type hookC15 struct{ noHook }
+
+// decay N : the owner ages node N away - two re-weightings by 2^-600 make every
+// weight underflow to 0 - and will clear and re-use it. Until the clear the
+// sketch is outside every model (dirty).
+func (hookC15) event(x *fleetExec, e engine.Event) bool {
+	if e.Ev != "decay" {
+		return false
+	}
+	nd := x.nodes[e.N]
+	if nd == nil || nd.dirty {
+		return true
+	}
+	sig := "decay/" + nd.spec.Role + "/" + nd.spec.Store
+	for k := 0; k < 2; k++ {
+		nd.each(func(s sk) {
+			x.lib("Reweight", sig, func() {
+				if err := s.Reweight(math.Ldexp(1, -600)); err != nil {
+					x.fail("accepts-valid", sig, "Reweight(2^-600) refused: "+err.Error(), "accepted", err.Error())
+				}
+			})
+		})
+	}
+	nd.dirty = true
+	x.st.Probe("weights-decayed-to-zero-before-clear")
+	return true
+}
 
 func (hookC15) after(x *fleetExec, e engine.Event, nd *knode) {
 	sig := x.sigFor(e)
